@@ -188,6 +188,72 @@ mut("input_iter_dead_label_arm", "src/serialization/mod.rs",
     """                InnerInput::Label((iter, _)) => [iter[0]],""", """                InnerInput::Label((iter, _)) => [iter[1]],""",
     breaks=[], keeps=["C01", "C03"], note="changes a branch no call site reaches (iter() on a label): must not raise an alarm (undecided is acceptable for C05/C09)")
 
+mut("harmless_check_slice_size_if_else", "src/errors.rs",
+    """        if slice.len() != expected_len {
+            return Err(InternalError::SizeError {
+                name: arg_name,
+                len: expected_len,
+                actual_len: slice.len(),
+            });
+        }
+        Ok(slice)
+    }
+
+    pub fn check_slice_size_atleast""", """        if slice.len() == expected_len {
+            Ok(slice)
+        } else {
+            Err(InternalError::SizeError {
+                name: arg_name,
+                len: expected_len,
+                actual_len: slice.len(),
+            })
+        }
+    }
+
+    pub fn check_slice_size_atleast""",
+    breaks=[], keeps=["C03", "C10", "C12", "C13"], note="property-preserving: early return rewritten as if / else")
+
+mut("harmless_server_finish_inlined_binding", "src/opaque.rs",
+    """        let session_key = <CS::KeyExchange as KeyExchange<OprfHash<CS>, CS::KeGroup>>::finish_ke(
+            message.ke3_message,
+            &self.ke2_state,
+        )?;
+
+        Ok(ServerLoginFinishResult {
+            session_key,""", """        let ke3 = message.ke3_message;
+        let state = &self.ke2_state;
+        let key = <CS::KeyExchange as KeyExchange<OprfHash<CS>, CS::KeGroup>>::finish_ke(ke3, state)?;
+
+        Ok(ServerLoginFinishResult {
+            session_key: key,""",
+    breaks=[], keeps=["C03", "C07", "C08", "C09"], note="property-preserving: temporaries introduced, field init written out")
+
+mut("harmless_mask_response_pad_first", "src/opaque.rs",
+    """    let mut xor_pad = GenericArray::<_, MaskedResponseLen<CS>>::default();
+
+    Hkdf::<OprfHash<CS>>::from_prk(masking_key)
+        .map_err(|_| InternalError::HkdfError)?
+        .expand_multi_info(&[masking_nonce, STR_CREDENTIAL_RESPONSE_PAD], &mut xor_pad)
+        .map_err(|_| InternalError::HkdfError)?;
+""", """    let hkdf = Hkdf::<OprfHash<CS>>::from_prk(masking_key).map_err(|_| InternalError::HkdfError)?;
+    let mut xor_pad = GenericArray::<_, MaskedResponseLen<CS>>::default();
+    hkdf.expand_multi_info(&[masking_nonce, STR_CREDENTIAL_RESPONSE_PAD], &mut xor_pad)
+        .map_err(|_| InternalError::HkdfError)?;
+""",
+    breaks=[], keeps=["C01", "C06", "C08", "C09"], note="property-preserving: HKDF object bound to a local before the output buffer is created")
+
+mut("harmless_extract_helper", "src/opaque.rs",
+    """    pub fn finish(message: RegistrationUpload<CS>) -> Self {
+        Self(message)
+    }""", """    pub fn finish(message: RegistrationUpload<CS>) -> Self {
+        Self::from_upload(message)
+    }
+
+    fn from_upload(message: RegistrationUpload<CS>) -> Self {
+        Self(message)
+    }""",
+    breaks=[], keeps=["C01", "C09", "C13"], note="property-preserving: a trivial helper extracted (new function without contract: callers become undecided at worst, never a violation)")
+
 mut("harmless_rename_and_reorder", "src/key_exchange/tripledh.rs",
     """        let server_e_kp = KeyPair::<KG>::generate_random::<OprfCs, _>(rng);
         let server_nonce = generate_nonce::<R>(rng);
